@@ -6,11 +6,13 @@ Everything here is inert unless the environment variable
 ``ASTROPY_REGIONS_VERIF`` is set to ``1``.
 """
 import os
+from collections import deque
 
 __all__ = []
 
 GUARD = 'ASTROPY_REGIONS_VERIF'
-events = []
+# bounded, so that a long tracing session that never drains it cannot grow
+events = deque(maxlen=200000)
 
 
 def enabled():
